@@ -24,7 +24,7 @@ EXHAUSTIVE_SUBDOMAINS = ["subtype(1-4) x sign x 10-bit field 0..1023 for both fi
 ASSUMPTIONS = ["altitude_diff code 127 ('> 3137.5 ft') may decode to None or +-3150: the statement does not settle it",
                "ground speed is accepted within 1 kt of hypot (the implementation truncates to int)"]
 REQUIRED = ["st1", "speed_within_3e-4_of_a_whole_knot", "st2", "st3", "st4", "whole_none", "hdg_none", "hdg_north", "spd_none", "vr_none", "diff_none", "surface",
-            "mov_none", "trk_none", "routing"]
+            "mov_none", "trk_none", "routing", "distinct_messages_pushed_through_by_4_threads"]
 
 
 def expected_tc19(st, f14, a, f25, b, vr_src, vr_sign, vr):
@@ -194,7 +194,31 @@ def m_surface(ctx, case):
             ctx.nontrivial(("s", hx))
 
 
-MONITORS = {"tc19": m_tc19, "surface": m_surface}
+def m_volthreads(ctx, case):
+    """more distinct velocity messages than an 18-bit bounded memo holds (2**18 = 262144), from 4 threads at once, every seventh
+    request repeating what the neighbour thread is asking for at that moment (see pmv/volume.py): a ring of keys that holds one
+    key twice fails only when the ring wraps over it - hundreds of thousands of messages later, on an unrelated message"""
+    from .. import volume
+    from pyModeS import adsb
+
+    def mk(r):
+        me = radsb.tc19(1, r.randrange(2), r.randrange(1, 1024), r.randrange(2), r.randrange(1, 1024), r.randrange(2), r.randrange(2),
+                        r.randrange(512), r.randrange(2), r.randrange(128))
+        return "%028X" % bits.es_frame(17, 5, r.getrandbits(24), me)
+
+    def oracle(name, msg):
+        me = (int(msg, 16) >> 24) & ((1 << 56) - 1)
+        vr = radsb.get(me, 38, 46)
+        return None if vr == 0 else (-1 if radsb.get(me, 37, 37) else 1) * (vr - 1) * 64
+
+    def vrate(m):
+        v = adsb.velocity(m)
+        return v[2] if isinstance(v, tuple) and len(v) >= 4 else ("unexpected result", v)
+    volume.run(ctx, [("velocity_vertical_rate", vrate)], mk, oracle, total=case["total"])
+
+
+NO_OBSERVE = ("volthreads",)
+MONITORS = {"volthreads": m_volthreads, "tc19": m_tc19, "surface": m_surface}
 
 VR_B = [0, 1, 2, 3, 255, 256, 257, 510, 511]
 DIFF_B = [0, 1, 2, 63, 64, 126, 127]
@@ -204,6 +228,8 @@ def cases(ctx):
     rng = ctx.rng
     quick = ctx.tier == "quick"
     i = 0
+    if ctx.mine(5):
+        yield "volthreads", {"total": 300000 if quick else 640000}
     for st in (1, 2, 3, 4):
         for which in (0, 1):          # which 10-bit field is swept
             for other in ("rand", 0, 1, 1023):
